@@ -18,7 +18,14 @@ must decode equal to the message just as on a fresh object; after every case of 
 chunk and every 32nd case of a sweep a "twin" (another valid message of different shape: rx v1 burst <-> NOPE.ind without burst, tx / rx v0 the
 other burst length) is encoded through the long-lived encoder with its fields reassigned - same octets as from a new
 object - and decoded by the long-lived decoder; the buffer an earlier gen_msg() returned must be unchanged after the next
-gen_msg() on the same or on another object (aliasing).  Auxiliary leg "tables": the soft-bit translation -127..127 <-> 254..0
+gen_msg() on the same or on another object (aliasing).
+In-place edits (every case of a base chunk, every 64th of a burst-pattern chunk, every 256th of a sweep): ONE message
+object encodes the case, is edited in place (burst element flipped at first / middle / last position, whole burst
+slice-assigned, fn, tn, pwr / rssi, toa256, ci, tsc, tsc_set reassigned; the burst container is never replaced) and
+encodes again after every edit; every new encoding must decode (fresh object) to what the object now holds
+(C01:history:*:enc-after-inplace-change:<edit>); a decoder object used before parses the encoding, re-encodes
+(…:reencode-after-parse), gets its parsed burst and fn edited in place and re-encodes (…:reencode-after-inplace-change).
+Auxiliary leg "tables": the soft-bit translation -127..127 <-> 254..0
 is the identity on that range, and the hard/soft helpers keep polarity (0 <-> positive, 1 <-> negative).
 """
 from array import array
@@ -110,7 +117,7 @@ def compare_fields(e, c, p, data, pre):
         exp = master(e, c)
         nbits = c["bl"]
         if not burst_equal(p.burst, exp, cls):
-            out.append((pre + ":burst", "burst %r (%d bits): %s" % (c["burst"], c["bl"],
+            out.append((pre + ":burst", "burst %r (%d bits): %s" % (c["burst"] if c["burst"][0] != "raw" else "(edited in place)", c["bl"],
                         "decoded None" if p.burst is None else first_diff(p.burst, exp))))
     return out, nf, nbits
 
@@ -287,6 +294,65 @@ class History:
         return out, hist
 
 
+def inplace_visit(e, c):
+    """One message object encodes case c, is then edited IN PLACE step by step (E.inplace_plan: burst element at first /
+    middle / last position, whole burst content by slice assignment, header fields; the burst container is never
+    replaced) and encodes again after every edit; each new encoding is decoded by a fresh object and must equal the
+    message the object now describes.  Then a decoder object used before parses the encoding of c, re-encodes (must
+    decode equal to c), has its PARSED burst and fn edited in place, and re-encodes again.
+    -> (round trips made, [(key, msg)])"""
+    dm = e["dm"]
+    cls, ver, legacy = c["cls"], c["ver"], c["legacy"]
+    fam = "C01:history:%s:v%d" % (cls, ver)
+    out = []
+    n = [0]
+
+    def rt(obj, what, nc, label):
+        n[0] += 1
+        try:
+            data = obj.gen_msg(legacy)
+            q = dm.TxMsg() if cls == "tx" else dm.RxMsg()
+            q.parse_msg(bytes(data) if cls == "tx" else bytearray(data))
+        except Exception as ex:
+            out.append(("%s:%s:raises-%s" % (fam, what, type(ex).__name__), "after in-place edit '%s': %s(%s)" % (label, type(ex).__name__, ex)))
+            return
+        o, _, _ = compare_fields(e, nc, q, data, "x")
+        if o:
+            out.append(("%s:%s:%s" % (fam, what, label), "after the in-place edit '%s' of the same object its encoding no longer decodes to "
+                        "what the object holds: %s" % (label, "; ".join(m for _, m in o)[:400])))
+
+    try:
+        m = E.build_tk(dm, c)
+        data0 = m.gen_msg(legacy)
+    except Exception:
+        return 0, []                # reported by the plain round trip
+    steps = list(E.inplace_plan(c))
+    for label, op, nc in steps:
+        E.apply_inplace(m, op)
+        rt(m, "enc-after-inplace-change", nc, label)
+        if out:                     # later edits build on this one: report the first edit that breaks, not its echoes
+            break
+    p = dm.TxMsg() if cls == "tx" else dm.RxMsg()
+    try:
+        t = E.build_tk(dm, twin(c)).gen_msg(legacy)
+        p.parse_msg(bytes(t) if cls == "tx" else bytearray(t))
+        p.parse_msg(bytes(data0) if cls == "tx" else bytearray(data0))
+    except Exception:
+        return n[0], out
+    rt(p, "reencode-after-parse", c, "none")
+    cur = c
+    if c["bl"] is not None:
+        label, op, cur = steps[0]
+        E.apply_inplace(p, op)
+        rt(p, "reencode-after-inplace-change", cur, label)
+    if out:
+        return (n[0] if isinstance(n, list) else n), out
+    cur = dict(cur, fn=(c["fn"] + 1) % E.HYPER)
+    p.fn = cur["fn"]
+    rt(p, "reencode-after-inplace-change", cur, "fn")
+    return n[0], out
+
+
 def replay_history(e, hist):
     H = History(e)
     r = []
@@ -342,6 +408,7 @@ def work(chunk):
     keys, good = set(), set()
     sample = None
     n = 0
+    ninpl = [0, 0]
     sweep = chunk[3] if chunk[0] == "sweep" else None
     for i, (kind, c) in enumerate(seq_chunk(chunk)):
         buf = None
@@ -364,6 +431,15 @@ def work(chunk):
                 if key not in vkeys:
                     vkeys.add(key)
                     viol.append((key, c, msg))
+            if E.inplace_here(chunk, n - 1):
+                ne, ir = inplace_visit(e, c)
+                ninpl[0] += 1
+                ninpl[1] += ne
+                for key, msg in ir:
+                    nviol += 1
+                    if key not in vkeys:
+                        vkeys.add(key)
+                        viol.append((key, {"leg": "inplace", "case": c}, msg))
         if kind == "case-fresh-only":
             continue
         hr, hist = H.process(kind, c, buf)
@@ -373,7 +449,7 @@ def work(chunk):
                 vkeys.add(key)
                 viol.append(history_viol(e, H, key, msg, hist, chunk, i))
     cov = dict(stat, evaluations=n, distinct_cases=len(keys), distinct_nontrivial=len(good),
-               by_class=by_class, by_group=by_group, chunks=1)
+               by_class=by_class, by_group=by_group, chunks=1, hist_inplace_visits=ninpl[0], hist_inplace_roundtrips=ninpl[1])
     cov.update(H.cov)
     return {"cov": cov, "viol": viol, "nviol_extra": nviol - len(viol), "samples": [sample] if sample else []}
 
@@ -415,7 +491,11 @@ def run(ctx):
                  "compared field by field; after every case of a base chunk, every 8th case of a burst-pattern chunk and every 32nd case of a sweep a twin message of "
                  "different shape (rx v1 burst <-> NOPE.ind, tx / rx v0 other burst length) is encoded through the long-lived encoder "
                  "(octets must equal a new object's) and decoded by the long-lived decoder; previously returned buffers must stay "
-                 "unchanged (aliasing). Work items, not worker processes, own these objects, so results do not depend on scheduling.")
+                 "unchanged (aliasing). In-place edits (hist_inplace_*): at every case of a base chunk, every 64th of a burst-pattern "
+                 "chunk and every 256th of a sweep one object encodes, is edited in place (burst element first/middle/last, burst "
+                 "slice-assigned, fn, tn, pwr/rssi, toa256, ci, tsc, tsc_set) and re-encodes after every edit, each encoding round-"
+                 "tripped through a fresh decoder against the edited message; a used decoder object parses, re-encodes, gets its parsed "
+                 "burst and fn edited in place and re-encodes likewise. Work items, not worker processes, own these objects, so results do not depend on scheduling.")
     c["exhaustive"] = True
     ctx.assumptions += ["joint products of wide fields are not enumerated (one wide field at a time at 3 base points)",
                         "burst contents are the stated pattern families, not {0,1}^n / [-127,127]^n",
@@ -426,6 +506,10 @@ def replay(ctx, case):
     e = env()
     if case.get("leg") == "tables":
         for k, m in check_tables(e):
+            ctx.violation(k, case, m)
+        return
+    if case.get("leg") == "inplace":
+        for k, m in inplace_visit(e, case["case"])[1]:
             ctx.violation(k, case, m)
         return
     if case.get("leg") == "history":
